@@ -48,6 +48,8 @@ def instances():
     for inner in (b"", b"\"WScript.Shell\"", b"foo(1),(2)", b"a(b(c(d)))", b"(x)(y)"):
         c = b"CreateObject(" + inner + b")"
         out.append((("vba.function.createobject",), c, c))
+    out.append((("vba.function.createobject",), b"createobject(x)", b"createobject(x)"))
+    out.append((("vba.function.createobject",), b"CREATEOBJECT((a))", b"CREATEOBJECT((a))"))
     return out
 
 
